@@ -618,7 +618,10 @@ fn read_code<C: CodeVisitor>(
 
 						if low > high { bail!("in tableswitch `low` must be lower or equal to `high`, it's low={low:?} and high={high:?}"); }
 
-						let n = (high - low + 1) as u32; // always >= 1
+						// Every entry takes four bytes of the code array, so more than `code_length / 4` of them can never be there.
+						let n = high as i64 - low as i64 + 1; // always >= 1
+						if n > (code_length / 4) as i64 { bail!("in tableswitch the entries from low={low:?} to high={high:?} don't fit into the code array"); }
+						let n = n as u32;
 
 						for _ in 0..n {
 							labels.create(r.read_i32_as_branch_target_label(opcode_pos)?)?;
@@ -1024,7 +1027,10 @@ fn read_code<C: CodeVisitor>(
 
 				if low > high { bail!("in tableswitch `low` must be lower or equal to `high`, it's low={low:?} and high={high:?}"); }
 
-				let n = (high - low + 1) as u32; // always >= 1
+				// Every entry takes four bytes of the code array, so more than `code_length / 4` of them can never be there.
+				let n = high as i64 - low as i64 + 1; // always >= 1
+				if n > (code_length / 4) as i64 { bail!("in tableswitch the entries from low={low:?} to high={high:?} don't fit into the code array"); }
+				let n = n as u32;
 
 				let mut table = Vec::with_capacity(n as usize);
 				for _ in 0..n {
